@@ -2371,6 +2371,7 @@ DLLIMPORT int cfg_opt_rmnsec(cfg_opt_t *opt, unsigned int index)
 	}
 	--opt->nvalues;
 
+	val->section->path = NULL; /* Global search path */
 	cfg_free(val->section);
 	free(val);
 
